@@ -22,6 +22,16 @@ ADJ_ASSUME = ['exact real arithmetic stands for IEEE double (rounding not modell
               'oracles (rational Gauss-Jordan inverse, null space) in harness/qla.h are trusted',
               'z3 4.8.12 (libz3) decides branch feasibility and assertions']
 
+E2_ASSUME = ['clang-14 -O1 IR is a faithful compilation of the wrapper TU (the wrapper includes the real header unmodified)', 'ir2c.py translation (validated each run against the g++ build on 2e5 inputs)',
+             'CBMC 6.11 with --unwinding-assertions --pointer-overflow-check --undefined-shift-check --signed-overflow-check --no-malloc-may-fail; C-locale isspace model', 'witness twin of every harness must fail']
+K_INTFLOAT = {'name': 'intfloat', 'cpp': 'k_intfloat.cpp', 'harness': 'k_intfloat_h.c', 'diff': 'k_intfloat_diff.c',
+              'funcs': [{'fn': 'h_is_float', 'unwind': {'quick': 9, 'thorough': 11}, 'defs': {'quick': ['-DNBYTES=6'], 'thorough': ['-DNBYTES=8']}},
+                        {'fn': 'h_is_integer', 'unwind': {'quick': 9, 'thorough': 11}, 'defs': {'quick': ['-DNBYTES=6'], 'thorough': ['-DNBYTES=8']}},
+                        {'fn': 'h_trim', 'unwind': {'quick': 9, 'thorough': 11}, 'defs': {'quick': ['-DNBYTES=6'], 'thorough': ['-DNBYTES=8']}}]}
+K_MATIDX_FUNCS = [{'fn': 'h_symmat', 'unwind': 4, 'defs': {'quick': ['-DDMAX=10'], 'thorough': ['-DDMAX=48']}}, {'fn': 'h_covmat', 'unwind': 4, 'defs': {'quick': ['-DDMAX=10'], 'thorough': ['-DDMAX=32']}},
+                  {'fn': 'h_bandmat', 'unwind': 4, 'defs': {'quick': ['-DDMAX=10'], 'thorough': ['-DDMAX=32']}}]
+K_MATIDX = {'name': 'matidx', 'cpp': 'k_matidx.cpp', 'harness': 'k_matidx_h.c', 'clang_flags': [], 'funcs': K_MATIDX_FUNCS}
+K_MTF = {'name': 'mtf', 'cfile': 'matidx', 'cpp': 'k_matidx.cpp', 'harness': 'k_matidx_h.c', 'clang_flags': [], 'funcs': [{'fn': 'h_mtf_step', 'unwind': 5}]}
 PROPS = {
  'C01': {
    'e1': [{'harness': 'adj', 'entry_points': ['GNU_gama::Adj::x/r/rtr/defect', 'AdjEnvelope/AdjCholDec/AdjGSO/AdjSVD::unknowns/residuals/sum_of_squares/defect/lindep',
@@ -43,6 +53,7 @@ PROPS = {
  'C04': {
    'e1': [{'harness': 'hist', 'entry_points': ['AdjEnvelope/AdjCholDec/AdjGSO/AdjSVD: unknowns, residuals, sum_of_squares, defect, q_xx, q_bb, q0_xx, lindep, min_x(), min_x(n,idx), reset',
                                                 'Adj: x, r, rtr, defect, q_xx, q_bb, set_algorithm'], 'budget_s': {'quick': 400, 'thorough': 3000}}],
+   'e2': [K_MTF],
    'must_reach': ['hist', 'hist-adj'],
    'technique': 'symbolic execution of every bounded API call sequence on the real solver objects; last answer equals a fresh object\'s answer as a solver-checked identity in the symbolic right-hand side',
    'bounds': 'skeletons lev4-datum, lev5-free, two-components, dep-cols (+vec2d-free, band-6x5, zero-col thorough) and one svd-family matrix; all call sequences of length <= 3 (quick) / <= 4 (thorough): '
@@ -82,4 +93,24 @@ PROPS = {
              'atan2/sin/cos through their contract (pi := M_PI literal), sqrt exact',
    'outside': 'acos inside z_angle\'s right-hand side (uninterpreted: only its argument and unit factor are checked); rounding of the unit constants 10*R2G and R2CC (taken as written in the source, value checked to 1e-9); points closer than 0.1 m',
    'assumptions': ['exact real arithmetic', 'libm contract for atan2/sin/cos/sqrt', 'closed forms of d(bearing)/d(coordinate) and d(zenith)/d(coordinate) written in the harness are the oracle (trusted)', 'z3 4.8.12 nlsat']},
+ 'C11': {'e2': [K_INTFLOAT],
+   'technique': 'bounded model checking (CBMC) of the compiled leaf recognisers IsFloat/IsInteger/TrimWhiteSpaces/SkipWhiteSpaces on every byte buffer up to the bound: no access outside [b,e), termination, acceptance equals a reference grammar',
+   'bounds': 'every byte string of length <= 6 (quick) / <= 8 (thorough), all 256 byte values; unwinding bound = length+3 with unwinding assertions',
+   'outside': 'MOST of the property: termination and memory safety of expat, GKFparser, DataParser and the result readers on arbitrary byte strings, located diagnostics, chunked delivery (heap-backed containers and a 3000-line automaton: no verdict within reach of CBMC here, invisible to the scalar substitution); only the leaf recognisers in front of atof/atoi are decided',
+   'claim': 'Partial claim: only the character-level numeric recognisers used by the parsers (CoreParser::toDouble/toIndex, deg2gon) are decided, by bounded model checking over all byte strings up to 6/8 bytes. The parser automata themselves are outside the reach of the technique (see level_note).',
+   'assumptions': E2_ASSUME},
+ 'C15': {'e1': [{'harness': 'mat', 'entry_points': ['Mat/Vec/SymMat operators (+,-,*,trans,Square,Lower,Upper)', 'Mat::invert / inv', 'SymMat::cholDec/solve/invert', 'CovMat::cholDec/solve/operator*', 'BandMat::cholDec/solve/invBand/operator*', 'GSO::gso1/gso2', 'pinv (assembly; SVD by contract)', 'MemRep copy/move/assign/resize through Vec']}],
+   'e2': [K_MATIDX],
+   'must_reach': ['mat-algebra', 'mat-symmat', 'mat-invert', 'mat-invert-sym', 'mat-chol', 'chol-accepted', 'chol-rejected', 'mat-gso', 'mat-pinv', 'mat-memrep', 'mat-conform'],
+   'technique': 'symbolic execution of the matvec templates with symbolic entries (polynomial identities decided by normal form + z3) and on concrete rational matrices with symbolic vectors against exact rational oracles; CBMC on the packed/banded index maps for all dimensions up to the bound',
+   'bounds': 'algebra: all shapes up to 3x3x3 with fully symbolic entries; inverse: 12 (quick) / 36 (thorough) rational matrices n<=4 incl. zero leading pivots, plus a fully symbolic diagonally dominant 2x2; Cholesky variants: n<=5(6), band<=3; GSO 5x3/5x4 with defect 0..2; pinv 4x3 from rational Cayley factors; '
+             'MemRep: every sequence of 3 operations {copy-assign, move-assign, copy-construct+assign, reset, write} over three vectors of sizes 0..3 (quick: a quarter of the first operations); conformance: all operand shapes 0..3; index maps (CBMC): dim<=10 (quick) / 48,32 (thorough), all bands, all index pairs',
+   'outside': 'the Golub-Reinsch SVD itself and BandMat::eigenVal/triDiag (floating-point termination tests, L2); ill-conditioned real matrices (rounding, L1); memory safety of MemRep histories under CBMC (attempted: symbolic allocation sizes gave no verdict in 10 min; covered by the symbolic harness, where a double free aborts the path and is replayed)',
+   'assumptions': ADJ_ASSUME + E2_ASSUME + ['legacy GSO: tolerance preset (1e-8) because its machine-epsilon bisection does not terminate in exact arithmetic']},
+ 'C16': {'e1': [{'harness': 'mat', 'entry_points': ['SparseMatrix::new_row/add_element/replicate/transpose', 'SparseMatrixGraph, ::connected', 'ReverseCuthillMcKee', 'Envelope::set/cholDec/solve/inverse/defect', 'BlockDiagonal::cholDec', 'Homogenization']}],
+   'must_reach': ['mat-sparse', 'mat-envelope'],
+   'technique': 'symbolic execution of the sparse kernels with symbolic entry values on enumerated sparsity patterns; envelope factorisation, solves and sparse inverse compared with the exact dense results of a rational oracle for symbolic right-hand sides',
+   'bounds': 'sparsity patterns: the 12 fixed skeletons (empty row, zero column, single column, banded, disconnected, dependent columns) + 8 (quick) / 30 (thorough) seeded random ones, m<=9, n<=6; 3 (6) covariance block layouts each; entry values and right-hand sides symbolic',
+   'outside': 'memory safety of the sparse kernels under CBMC: attempted (ir2c/kernels/k_sparse*): 1x1 verifies in 12 s, 2x2 needs ~8 min -> not part of the registered check; connectivity/ordering are integer-only and therefore enumerated, not solver-quantified; graphs with more than 6 nodes',
+   'assumptions': ADJ_ASSUME},
 }
